@@ -32,10 +32,10 @@ func checkFallbackOnlyForMainRune(c *Ctx, p *Prog, rule string) {
 			c.Undecided(rule, s.name, "-", "not found")
 			continue
 		}
-		// the function and what it calls in its package, two levels down
+		// the function and what it calls in its package, three levels down
 		fns := []*ssa.Function{entry}
 		seen := map[*ssa.Function]bool{entry: true}
-		for depth, lo := 0, 0; depth < 2; depth++ {
+		for depth, lo := 0, 0; depth < 3; depth++ {
 			hi := len(fns)
 			for _, f := range fns[lo:hi] {
 				eachInstr(f, func(in ssa.Instruction) {
@@ -2050,7 +2050,11 @@ func checkWideDirtyIndependentOfMarker(c *Ctx, p *Prog, rule string) {
 			c.Undecided(rule, name, "-", "not found")
 			continue
 		}
-		eachInstr(fn, func(in ssa.Instruction) {
+		for _, d := range deepInstrs(p, fn, 1, func(_ ssa.Instruction, callee *ssa.Function) bool {
+			// (into helpers of the cell buffer, not into SetDirty itself)
+			return recvTypeName(callee) == "tcell.CellBuffer" && callee.Name() != "SetDirty"
+		}) {
+			in, anchor := d.in, d.anchor
 			cc := callCommon(in)
 			isSite := false
 			if cc != nil && strings.HasSuffix(calleeName(cc), "CellBuffer).SetDirty") && len(cc.Args) == 4 {
@@ -2066,15 +2070,19 @@ func checkWideDirtyIndependentOfMarker(c *Ctx, p *Prog, rule string) {
 				}
 			}
 			if !isSite {
-				return
+				continue
 			}
 			n++
-			for _, g := range rawGuardsAt(in.Block()) {
+			gs := rawGuardsAt(in.Block())
+			if anchor != in {
+				gs = append(gs, rawGuardsAt(anchor.Block())...)
+			}
+			for _, g := range gs {
 				if mentionsField(g.Cond, "tcell.cell", "lastMain", 4) {
 					bad += name + ": the neighbour is dirtied at " + p.pos(in.Pos()) + " only depending on the base cell's dirty marker; "
 				}
 			}
-		})
+		}
 	}
 	c.Check(n >= 2 && bad == "", rule, "wide-rune:neighbours-dirtied-whatever-the-marker", "-", fmt.Sprintf("%d neighbour-dirtying site(s) in SetContent and Fill, none behind a test of lastMain %s", n, bad))
 }
